@@ -88,6 +88,10 @@ func (vt *Model) ri() {
 		vt.scrollDown(1)
 		return
 	}
+	if vt.cursor.row == 0 {
+		// Above the scrolling region, on the first line: nowhere to go
+		return
+	}
 	vt.cursor.row -= 1
 }
 
